@@ -38,8 +38,8 @@ def main(tier):
     D, B = (3, 2) if tier == "quick" else (4, 2)
     if tier == "quick":  # depth 3 with budget 2 from the four seeds without a mux, budget 1 from the four mux seeds (their op menus are the largest)
         st = e2.explore(run, ["single", "rails", "phases", "freed", "blank", "chain"], 3, 2, letters="RIM", trans_check=trans_check, state_check=state_check, phase_ops=False)
-        stb = e2.explore(run, ["mux", "mux3", "freed0", "rerail", "muxdeep", "railmux", "muxlist"], 3, 1, trans_check=trans_check, state_check=state_check, phase_ops=False)
-        stc = e2.explore(run, ["mux", "mux3", "freed0", "rerail", "muxdeep", "railmux", "muxlist"], 2, 2, trans_check=trans_check, state_check=state_check, phase_ops=False)
+        stb = e2.explore(run, ["mux", "mux3", "freed0", "rerail", "muxdeep", "railmux", "muxlist", "oldfile"], 3, 1, trans_check=trans_check, state_check=state_check, phase_ops=False)
+        stc = e2.explore(run, ["mux", "mux3", "freed0", "rerail", "muxdeep", "railmux", "muxlist", "oldfile"], 2, 2, trans_check=trans_check, state_check=state_check, phase_ops=False)
         # component phase configurations (incl. EMPTY ones) interleaved with the edits; the Rectifier letter on the seed with two rectifiers in one path
         std = e2.explore(run, ["single", "phases", "mux"], 2, 2, letters="RI", trans_check=trans_check, state_check=state_check, phase_ops=True)
         ste = e2.explore(run, ["rect", "single"], 2, 2, letters="RDI", trans_check=trans_check, state_check=state_check, phase_ops=False)
